@@ -33,9 +33,10 @@ BIG = (1 << 32) + 5
 class BigFileStore(MemFilestore):
     """claims one file of BIG bytes whose content is a function of the offset"""
 
-    def __init__(self, path):
+    def __init__(self, path, size=BIG):
         super().__init__()
         self.big = self.k(path)
+        self.size = size
         self.files[self.big] = bytearray()
 
     @staticmethod
@@ -50,13 +51,13 @@ class BigFileStore(MemFilestore):
 
     def file_size(self, file):
         if self.k(file) == self.big:
-            return BIG
+            return self.size
         return super().file_size(file)
 
     def read_data(self, file, offset, read_len=None):
         if self.k(file) == self.big:
             offset = offset or 0
-            n = max(0, min(read_len if read_len is not None else BIG, BIG - offset))
+            n = max(0, min(read_len if read_len is not None else self.size, self.size - offset))
             return self.content(offset, n)
         return super().read_data(file, offset, read_len)
 
@@ -125,6 +126,9 @@ def gen_cases(tier, seed):
     for i, (mode, crc, idw, seqw) in enumerate([("ack", False, 2, 16), ("unack", True, 1, 8), ("ack", True, 4, 32), ("unack", False, 8, 16)]):
         for maxpkt in ((64, 4096) if tier == "quick" else (64, 1000, 4096)):
             cases.append({"t": "big_head", "mode": mode, "crc": crc, "idw": idw, "seqw": seqw, "maxpkt": maxpkt, "seg": None if i % 2 else 37})
+            # the boundary of the large-file flag: 2^32-1 bytes still fit the 32-bit fields, 2^32 bytes do not
+            cases.append({"t": "big_head", "mode": mode, "crc": crc, "idw": idw, "seqw": seqw, "maxpkt": maxpkt, "seg": None if i % 2 else 37, "bigsize": (1 << 32) - 1})
+            cases.append({"t": "big_head", "mode": mode, "crc": crc, "idw": idw, "seqw": seqw, "maxpkt": maxpkt, "seg": None if i % 2 else 37, "bigsize": 1 << 32})
     if tier == "thorough":
         cases.append({"t": "big_full", "mode": "ack", "crc": False, "idw": 2, "seqw": 16, "maxpkt": 65000, "seg": None})
         cases.append({"t": "big_full", "mode": "unack", "crc": True, "idw": 1, "seqw": 8, "maxpkt": 65535, "seg": 60001})
@@ -301,7 +305,7 @@ def run_stream(w: World, case, data_fn, size, eff, cks, want_hdr, md_want, peer_
                 viol.append({"clause": "unexpected-pdu-kind-in-stream", "got": wire.short(d), "phase": phase})
         if new_fd_this_call > 1:
             viol.append({"clause": "more-than-one-file-data-pdu-per-call", "n": new_fd_this_call, "call": ncalls})
-        if size == BIG:
+        if size >= (1 << 31):
             # 66 000 PDUs of 64 KiB each must not be kept in the event log
             w.log.events[:] = [e for e in w.log.events if e["kind"].startswith("ind_")]
         if head_only and fd_count >= 3:
@@ -400,15 +404,18 @@ def run_case(case):
     cfg = {"mode": case["mode"], "closure": False, "seg": case["seg"], "maxpkt": case["maxpkt"], "crc": crc, "cks": "null", "src_idw": idw, "dst_idw": idw,
            "seqw": seqw, "size": 0, "fs": "mem"}
     with World(cfg) as w:
-        big = BigFileStore(w.src_path)
+        bigsize = case.get("bigsize", BIG)
+        large = bigsize > (1 << 32) - 1
+        big = BigFileStore(w.src_path, bigsize)
         big.dirs = set(w.src_inner.dirs)
         w.src_fs.inner = big
-        derived = models.max_fd_payload(case["maxpkt"], idw, seqw // 8, crc, large=True)
+        derived = models.max_fd_payload(case["maxpkt"], idw, seqw // 8, crc, large=large)
         eff = derived if case["seg"] is None else min(case["seg"], derived)
-        want_hdr = {"src": 1, "dst": 2, "seq": 0, "idw": idw, "seqw": seqw // 8, "unack": case["mode"] == "unack", "crc": crc, "large": True}
-        md_want = {"size": BIG, "src_name": w.src_path.as_posix(), "dst_name": w.dst_req_path.as_posix(), "closure": False, "cktype": "NULL_CHECKSUM"}
+        want_hdr = {"src": 1, "dst": 2, "seq": 0, "idw": idw, "seqw": seqw // 8, "unack": case["mode"] == "unack", "crc": crc, "large": large}
+        md_want = {"size": bigsize, "src_name": w.src_path.as_posix(), "dst_name": w.dst_req_path.as_posix(), "closure": False, "cktype": "NULL_CHECKSUM"}
         head = case["t"] == "big_head"
-        viol, obs = run_stream(w, case, BigFileStore.content, BIG, eff, "00000000", want_hdr, md_want, 0, (BIG // eff) + 20, head_only=head)
+        viol, obs = run_stream(w, case, BigFileStore.content, bigsize, eff, "00000000", want_hdr, md_want, 0, (bigsize // eff) + 20, head_only=head)
+        obs["large_flag_boundary_cases"] = int("bigsize" in case)
         obs["large_file_cases"] = 1
         if not head:
             obs["large_file_streamed_completely"] = 1
@@ -419,4 +426,4 @@ def run_case(case):
 
 
 REQUIRED = {"metadata_checked": 100, "eof_checked": 100, "empty_file_eof_checked": 5, "ack_finished_checked": 20, "full_segments": 200,
-            "fd_pdu_exactly_max_packet_len": 20, "large_file_cases": 4, "mixed_id_width": 20, "request_contradicts_mib": 20, "eof_resends_checked": 100, "second_streams_on_same_sender": 100, "second_stream_after_mib_change": 30}
+            "fd_pdu_exactly_max_packet_len": 20, "large_file_cases": 4, "large_flag_boundary_cases": 8, "mixed_id_width": 20, "request_contradicts_mib": 20, "eof_resends_checked": 100, "second_streams_on_same_sender": 100, "second_stream_after_mib_change": 30}
